@@ -10,6 +10,22 @@ import traceback
 from . import boot
 
 
+def _coverage():
+    '''blind-spot audit only (tools/covaudit.sh): VERIF_COVERAGE=<dir> records which lines of the tree ran'''
+    import os  # pylint: disable=import-outside-toplevel
+
+    d = os.environ.get('VERIF_COVERAGE')
+    if not d:
+        return None
+    import coverage  # pylint: disable=import-outside-toplevel
+
+    cov = coverage.Coverage(
+        data_file=os.path.join(d, 'cov'), data_suffix=True, include=[os.path.join(boot.REPO, 'Python', 'dawgie', '*')]
+    )
+    cov.start()
+    return cov
+
+
 def main():
     ap = argparse.ArgumentParser()
     ap.add_argument('pid')
@@ -18,6 +34,7 @@ def main():
     ap.add_argument('--out', required=True)
     args = ap.parse_args()
     faulthandler.enable()
+    cov = _coverage()
     mod = importlib.import_module('vf.props.' + args.pid.lower())
     try:
         if args.replay:
@@ -46,6 +63,9 @@ def main():
         res = {'inconclusive': ['harness crashed: ' + traceback.format_exc()[-3000:]]}
     finally:
         boot.cleanup()
+        if cov:
+            cov.stop()
+            cov.save()
     with open(args.out, 'wt', encoding='utf-8') as f:
         json.dump(res, f, default=str)
     return 0
